@@ -116,6 +116,49 @@ let run_upcfg (parts : string list) : string =
     Printf.sprintf "start=ok dial=%s host=%s x=%s || spec=ok tls=%d" (txt dial) host (if ok then "ok" else "fail") (if tls then 1 else 0)
 
 let () = register "upcfg" run_upcfg
+(* kind uprouter: several entries in one router (upr_init_router); split=j > 0: two routers *)
+let bytes_of_str (s : string) : n list = List.init (String.length s) (fun i -> n_of_int (Char.code s.[i]))
+
+let run_uprouter (parts : string list) : string =
+  let f = fields parts in
+  let n = int_of_string (fld f "n") in
+  let split = (match fld_opt f "split" with Some v -> int_of_string v | None -> 0) in
+  let entry i =
+    let g k = fld f (k ^ string_of_int i) in
+    let b k = g k = "1" in
+    let o = { o_ca = b "ca"; o_cert_key = b "ck"; o_insecure = b "ins"; o_verify_client = false } in
+    let peer = (match g "peer" with "-" -> None | s -> cert_kind_of s) in
+    let c = { upc_tag = bytes_of_str (g "tag"); upc_addr = hexf f ("url" ^ string_of_int i);
+              upc_dial_addr = hexf f ("da" ^ string_of_int i); upc_tls = o } in
+    (c, (peer, b "srvreq")) in
+  let rec range a b = if a >= b then [] else a :: range (a + 1) b in
+  let groups = if split > 0 && split < n then [range 0 split; range split n] else [range 0 n] in
+  let results = List.map (fun idx -> (idx, upr_case (List.map entry idx))) groups in
+  if List.exists (fun (_, r) -> r = None) results then "start=err"
+  else
+    let one (idx, r) =
+      (match r with
+       | Some vs ->
+         String.concat "" (List.map2 (fun i (ok, dial) ->
+           Printf.sprintf " d%d=%s x%d=%s" i (txt dial) i (if ok then "ok" else "fail")) idx vs)
+       | None -> "") in
+    "start=ok" ^ String.concat "" (List.map one results)
+
+let () = register "uprouter" run_uprouter
+(* kind lsrouter: several TLS listeners in one router (lsr_case) *)
+let run_lsrouter (parts : string list) : string =
+  let f = fields parts in
+  let n = int_of_string (fld f "n") in
+  let rec range a b = if a >= b then [] else a :: range (a + 1) b in
+  let entry i =
+    let g k = fld f (k ^ string_of_int i) in
+    ({ o_ca = g "ca" = "1"; o_cert_key = true; o_insecure = false; o_verify_client = g "vc" = "1" },
+     cert_kind_of (g "peer")) in
+  match lsr_case (List.map entry (range 0 n)) with
+  | None -> "start=err"
+  | Some vs -> "start=ok" ^ String.concat "" (List.mapi (fun i v -> Printf.sprintf " s%d=%d" i (if v then 1 else 0)) vs)
+
+let () = register "lsrouter" run_lsrouter
 let () = register "addr" run_addr
 let () = register "sockets" run_sockets
 let () = register "tlscfg" run_tlscfg
